@@ -87,6 +87,7 @@ func specWritesOK() bool {
 //@   entry
 //@   requires cgf.SpecReady() && processor.SpecSeqOK()
 //@   requires s != nil && s.ServerChf != nil && c != nil && specWritesOK()
+//@   requires [C20] specEnvOK()
 //@   ensures specAnswers() == old(specAnswers())+1
 //@   ensures ghostHttpWrites == old(ghostHttpWrites)+1 ==> (ghostHttpStatus == 400 || ghostHttpStatus == 500) && ghostHttpBody
 //@ func (*Server).ChargingdataChargingDataRefUpdatePost [C11]
